@@ -136,14 +136,14 @@ def pick_paths(rng, st, prof, kind):
 
 
 def pick_decor(rng, st, paths):
-    """now and then spell an argument in an unclean but equivalent way (./p, p/ for directories, a/../a/b, a//b)"""
+    """now and then spell an argument in an unclean but equivalent way (./p, p/, ./p/, a/../a/b, a//b)"""
     if rng.random() > 0.2:
         return None
     out = []
     for p in paths:
-        ondisk_dir = p in st.s.dirs
-        kinds = [0, 1, 5] + ([2, 3] if ondisk_dir else []) + ([4] if p.split(b"/")[0] in st.s.dirs else [])
-        out.append(rng.choice(kinds))
+        # every spelling for every argument, files and missing paths included: Goit works on the cleaned
+        # argument throughout (after repair F53; before it `add a/` unstaged an existing file a)
+        out.append(rng.choice([0, 1, 5, 2, 3, 4]))
     return out
 
 
@@ -251,7 +251,14 @@ def gen_hostile(rng, st):
         if combo == 3:
             return c_branch_flags(lst=True, delete=rng.choice(others))
         return c_branch_flags(names=[rng.choice(BRANCHES), rng.choice(BRANCHES)])
-    if k == 17 and rng.random() < 0.6:
+    if k == 17 and rng.random() < 0.25:
+        # an empty path argument: refused by add, rm and restore, alone or among valid ones
+        others = [rng.choice(st.files)] if st.files and rng.random() < 0.5 else []
+        args = others + [b""] if rng.random() < 0.5 else [b""] + others
+        which = rng.randrange(4)
+        return (c_add(args) if which == 0 else c_rm(args) if which == 1 else
+                c_restore(args) if which == 2 else c_restore(args, staged=True))
+    if k == 17 and rng.random() < 0.8:
         # config arguments the file format cannot hold, or without exactly one dot
         key, val = rng.choice([(b".k", b"v"), (b"user.name", b"a\nb"), (b"us\ner.name", b"x"), (b"user.na\nme", b"x"),
                                (b"a.b.c", b"v"), (b"nodot", b"v"), (b"s.", b"v"), (b".", b"v"), (b"user.name", b"line\n"),
